@@ -9,12 +9,13 @@
 //   FLOW 0: the library precondition "states numbered 0..n-1, n passed" is met by assuming that all NS states occur in A;
 //   FLOW 1: what `vata sim` does for arbitrary numberings: ReindexStates through a weak translator (visiting order),
 //           n = number of states found; the relation is then queried through the translation map.
-//   OP 2: number of states of Reduce / RemoveUselessStates / RemoveUnreachableStates of the twin == that of the original,
-//         and == the numbering-free reference count for the two trimming operations.
+//   OP 2: number of states of Reduce / RemoveUselessStates / RemoveUnreachableStates of the twin == that of the original
+//         (counted independently of the state numbers the results use).
 #include <vata/explicit_tree_aut.hh>
 #include <vata/sim_param.hh>
 #include "universe.h"
 #include "decode.h"
+#include "decode_free.h"
 #include "twin.h"
 using namespace VATA;
 #ifndef OP
@@ -79,14 +80,15 @@ static AutBase::StateDiscontBinaryRelation simOf(const ExplicitTreeAut& aut, uns
   return re.ComputeSimulation(sp);
 #endif
 }
-// number of distinct states (< NS) that occur in a library automaton, by iterating it
+// number of distinct states that occur in a library automaton, by iterating it.  The state numbers are only compared with
+// each other (slot table of decode_free.h), so results that are renumbered (all three operations may: translation-map
+// out-parameters / collapsed classes) are counted correctly; inRange = false: more than NS distinct states
 static unsigned countStates(const ExplicitTreeAut& aut, bool& inRange) {
-  unsigned m = 0;
-  for (const ExplicitTreeAut::Transition& t : aut) { inRange &= t.GetParent() < NS;
-    for (unsigned s = 0; s < NS; ++s) { m |= (unsigned)(t.GetParent() == s) << s; for (const auto& c : t.GetChildren()) m |= (unsigned)(c == s) << s; }
-    for (const auto& c : t.GetChildren()) inRange &= c < NS; }
-  for (const auto& f : aut.GetFinalStates()) { inRange &= f < NS; for (unsigned s = 0; s < NS; ++s) m |= (unsigned)(f == s) << s; }
-  unsigned n = 0; for (unsigned s = 0; s < NS; ++s) n += (m >> s) & 1; return n;
+  U::Slots<NS> sl; bool hot[NS];
+  for (const ExplicitTreeAut::Transition& t : aut) { sl.locate(t.GetParent(), hot); for (const auto& c : t.GetChildren()) sl.locate(c, hot); }
+  for (const auto& f : aut.GetFinalStates()) sl.locate(f, hot);
+  inRange &= sl.ok;
+  return sl.count();
 }
 static unsigned popcount(unsigned m) { unsigned n = 0; for (unsigned s = 0; s < NS; ++s) n += (m >> s) & 1; return n; }
 
@@ -140,16 +142,22 @@ extern "C" void harness(void)
   const unsigned r0 = countStates(orig.Reduce(), inRange), r1 = countStates(tw.Reduce(), inRange);
   const unsigned u0 = countStates(orig.RemoveUselessStates(), inRange), u1 = countStates(tw.RemoveUselessStates(), inRange);
   const unsigned n0 = countStates(orig.RemoveUnreachableStates(), inRange), n1 = countStates(tw.RemoveUnreachableStates(), inRange);
-  CHECK(inRange, 20);
-  unsigned expU = popcount(U::usefulStates(A));
+  CHECK(inRange, 20);                               // no result has more states than the universe (needed to count them at all)
+  unsigned u0x = u0;
 #ifdef VS_SELFTEST_1
-  expU += (A.pres[0] && ord == ORDBASE + NORD - 1);      // seeded wrong expectation for one insertion order
+  u0x += (A.pres[0] && ord == ORDBASE + NORD - 1);  // seeded: pretends a different count for one insertion order
 #endif
   CHECK(r0 == r1, 21);                              // Reduce: same number of states for the twin
-  CHECK(u0 == u1 && u1 == expU, 22);                // RemoveUselessStates: states left = useful states
-  // RemoveUnreachableStates keeps the states reachable top-down from final states (and all final states)
-  CHECK(n0 == n1 && n1 == popcount(U::reachableTD(A) & used), 23);
-  CHECK(r1 <= popcount(used), 24);
+  CHECK(u0x == u1, 22);                             // RemoveUselessStates: same number of states for the twin
+  CHECK(n0 == n1, 23);                              // RemoveUnreachableStates: same number of states for the twin
+  CHECK(r1 <= popcount(used), 24);                  // "reducing w.r.t. the number of states" (header of Reduce; C05)
+#ifdef STRICT_IMPL   // never defined.  This property only says that the counts do not depend on numbering / insertion order.
+  // WHICH count comes out is the subject of C03 (and there only "nothing dead is left", not "every useful state is kept", nor
+  // whether a final state without rules still counts): today exactly the useful states resp. the states reachable top-down
+  // from the final states (and all final states) are left
+  CHECK(u1 == popcount(U::usefulStates(A)), 25);
+  CHECK(n1 == popcount(U::reachableTD(A) & used), 26);
+#endif
 #ifdef VS_OBSERVE
   vs_observe(r1); vs_observe(u1); vs_observe(n1);
 #endif
